@@ -61,5 +61,50 @@ def skiplist_obls(prefix):
     return out
 
 
-OBLIGATIONS = skiplist_obls("c")
+CACHE_OPS = {0: "insert", 1: "lookup", 2: "release", 3: "erase", 4: "prune", 5: "usage", 6: "id"}
+CACHE_FUNCS = {0: ["lru_shard_insert", "lru_table_insert", "lru_shard_finish", "lru_table_remove", "lru_shard_unref", "lru_shard_append", "lru_shard_remove"],
+               1: ["lru_shard_lookup", "lru_table_lookup", "lru_table_find", "lru_shard_ref"],
+               2: ["lru_shard_release", "lru_shard_unref"],
+               3: ["lru_shard_erase", "lru_table_remove", "lru_shard_finish", "lru_shard_unref"],
+               4: ["lru_shard_prune", "lru_table_remove", "lru_shard_finish", "lru_shard_unref"],
+               5: ["lru_shard_usage"], 6: ["ldb_lru_id"]}
+CACHE_API = {0: "ldb_lru_insert", 1: "ldb_lru_lookup", 2: "ldb_lru_release", 3: "ldb_lru_erase", 4: "ldb_lru_prune", 5: "ldb_lru_usage", 6: "ldb_lru_id"}
+
+
+def cache_obls(prefix):
+    out = []
+    tuples = []   # (op, entries, api, env, tier)
+    for op in range(6):
+        for e in (1, 2):
+            tuples.append((op, e, 0, 0, "quick"))
+        tuples.append((op, 3, 0, 0, "thorough"))
+    tuples += [(0, 0, 0, 0, "quick"), (1, 0, 0, 0, "quick"), (3, 0, 0, 0, "quick")]
+    for op in (0, 1, 2, 3):
+        tuples.append((op, 2, 0, 1, "quick"))
+        tuples.append((op, 3, 0, 1, "thorough"))
+    for op in (0, 1, 3, 4, 5, 6):
+        tuples.append((op, 0, 1, 0, "quick"))
+    for op in range(6):
+        tuples.append((op, 1, 1, 0, "thorough"))
+    for (op, e, api, env, tier) in tuples:
+        defs = {"VP_OP": op, "VP_E": e}
+        if api:
+            defs["VP_API"] = 1
+        if env:
+            defs["VP_ENV"] = 1
+        name = "%s.cache-%s-%s-E%d%s" % (prefix, "api" if api else "shard", CACHE_OPS[op], e, "-env" if env else "")
+        out.append(Obl(name, "C10/cache.c", include_real=["util/cache.c"], kit=KIT, defs=defs,
+                       unwind=18, unwindset={"memcpy.0": 3, "memcmp.0": 3},
+                       replace_calls=(["ldb_lru_shard:vp_lru_shard"] if api else []),
+                       flags=["--slice-formula"], tier=tier, timeout=300,
+                       functions=CACHE_FUNCS[op] + ([CACHE_API[op], "ldb_lru_hash"] if api else []),
+                       desc="real util/cache.c %s from an arbitrary well-formed shard: shard mutex taken once before and released after every access to table/lists/refs/usage (state == ghost at lock, at unlock, on return), no other or nested lock, nothing held on return; effect == cache semantics on the ghost; representation invariant; entries freed exactly when the last reference goes, after one deleter call%s" % (
+                           (CACHE_API[op] + "()") if api else ("lru_shard_" + CACHE_OPS[op] + "()"),
+                           "; another thread erased / still holds an entry before the lock was granted" if env else ""),
+                       bounds="%d pre-existing entries (symbolic 1-byte keys 0..3, symbolic hashes incl. collisions, charge 0..255, refs 1..3, cached or erased-but-referenced, chain order symbolic), capacity 0..65535, hash table of 4 buckets (no resize)%s" % (
+                           e, "; whole cache object, other 15 shards empty" if api else "; stand-alone shard object")))
+    return out
+
+
+OBLIGATIONS = skiplist_obls("c") + cache_obls("b")
 META = {"level": "other"}
